@@ -8,7 +8,7 @@ SPEC = {
                  'C01, C02 clause set) plus the high-cloud-flag clause of the MSA cropping harness; per-path unsat',
     'bounds': {'quick': 'tables of 0..3 rows (slices/groups 0..2) x MSA in {None, any real}; okta 0..8; flag free; plus 4-row '
                         'layer tables with bases in [0,1e4] (the statement asks for up to four layers); cropping: tables of <= 3 hits',
-               'thorough': 'tables of 0..4 rows, plus 5-row layer tables with bases in [0,1e4]; cropping <= 5 hits'},
+               'thorough': 'as quick plus 3-row slices/groups tables, 4-row layer tables without MSA and 5-row layer tables (bases in [0,1e4]); cropping <= 5 hits'},
     'outside': 'tables with more rows than the bound',
     'budget_s': {'quick': 600, 'thorough': 3000},
 }
@@ -23,9 +23,9 @@ def h_flag(E, N, msa_none, full):
     return [c for c in c07.h_crop(E, N, msa_none, full) if 'flag' in c[0] or c[0] == 'no exception']
 
 
-from harness.c01 import _sizes  # noqa: E402
+from harness.c01 import _sizes, TH_EXTRA  # noqa: E402
 HARNESSES = [
-    H('H-msg', h_msg_c02, quick=_sizes(3, 4), thorough=_sizes(4, 5), float_model='R',
+    H('H-msg', h_msg_c02, quick=_sizes(3, 4), thorough=_sizes(3, 4) + TH_EXTRA, float_model='R',
       cover=['NCD', 'NSC', '1 groups', '3 groups', 'ceiling above two reported layers'],
       doc='real metar_msg(which): first group = lowest reportable layer, ceiling among the groups, every group a listed '
           'layer, NCD/NSC exactly as stated'),
